@@ -299,11 +299,15 @@ func stringLength1(context Context, args ...Result) (Result, error) {
 }
 
 func normalizeSpace0(context Context, args ...Result) (Result, error) {
-	return String(strings.TrimSpace(context.Result().String())), nil
+	return String(getNormalizedSpace(context.Result().String())), nil
 }
 
 func normalizeSpace1(context Context, args ...Result) (Result, error) {
-	return String(strings.TrimSpace(args[0].String())), nil
+	return String(getNormalizedSpace(args[0].String())), nil
+}
+
+func getNormalizedSpace(str string) string {
+	return strings.Join(strings.FieldsFunc(str, isXmlSpace), " ")
 }
 
 func translate(context Context, args ...Result) (Result, error) {
